@@ -18,11 +18,14 @@ def _hdr(tag, body, style):
     return wire.new_hdr(tag, len(body)) + body
 
 
-def build(primary, sub=None, style='len5', uid=b'Foreign Key <foreign@example.org>', created=1500000000, protect=None, sub_flags=None, extra_uid=None):
+def build(primary, sub=None, style='len5', uid=b'Foreign Key <foreign@example.org>', created=1500000000, protect=None, sub_flags=None, extra_uid=None,
+          primary_alg=None, sub_alg=None):
     """-> (secret transferable key octets, description dict with the signature bodies as written).
     created=None: the pool's own creation times (so that fingerprints equal those of pool.mat(name))"""
     sp = _sp(style)
     pm = pool.mat(primary, created)
+    if primary_alg is not None:
+        pm = dict(pm, alg=primary_alg)        # e.g. the deprecated RSA identifiers 3 (sign only) / 2 (encrypt only)
     base = created
     created = pm['created']
     prim_pub = RK.pub_body(pm)
@@ -61,6 +64,10 @@ def build(primary, sub=None, style='len5', uid=b'Foreign Key <foreign@example.or
         out += _hdr(2, b, style)
     if sub:
         sm = pool.mat(sub, None if base is None else created + 5)
+        if sub_alg is not None:
+            sm = dict(sm, alg=sub_alg)
+            if sub_alg == 2 and sub_flags is None:
+                sub_flags = b'\x0c'
         sub_pub = RK.pub_body(sm)
         out += _hdr(7, RK.sec_body(sm, protect), style)
         signing = sm['alg'] in (1, 17, 19, 22) and sm['alg'] != 18
